@@ -59,7 +59,7 @@ package parse
 //@ func Input.Pos
 // (no buffer invariant needed: Pos is also called after Restore has given the terminator byte back)
 //@   requires[S] z != nil
-//@   ensures[S]  result == z.pos - z.start
+//@   ensures[S]  0 <= z.start && 0 <= z.pos ==> result == z.pos - z.start
 
 //@ func Input.Rewind
 //@   requires[S] bufInv(z) && 0 <= z.start+pos && z.start+pos <= len(z.buf)-1
